@@ -136,6 +136,20 @@ def case(ctx, rnd, i):
         st = tr.steps[0]
         h = hull(st, n)
         made.append((st, op, tr.doc, h))
+    # primitive steps as a peer may send them (an AddMarkStep over text that carries marks
+    # the new one excludes is ONE step; Transform.add_mark would emit several)
+    prof = flat.depth_profile(tk)
+    for _ in range(6):
+        try:
+            st, tag = gensteps.gen_step(sch, rnd, g, d, p, tk, prof, slices, rnd.choice(["addMark", "addMark", "removeMark", "replace", "attr", "addNodeMark"]))
+            r = st.apply(d)
+        except Exception:
+            continue
+        if r.doc is None or rs.why_invalid(flat.pt(r.doc)) is not None:
+            continue
+        h = hull(st, n)
+        made.append((st, genops.Op("primitive:" + tag, {"step": st.to_json()}, None), r.doc, h))
+        ctx.count("primitive_steps_admitted")
     for x in range(len(made)):
         for y in range(len(made)):
             if x == y:
@@ -189,7 +203,14 @@ def case(ctx, rnd, i):
                               {**mech, "both_fail": d1 is None and d2 is None, "ancestor_token_removed": anc, "validity_error": validity})
                 continue
             if not (d1.eq(d2) and d2.eq(d1) and flat.pt(d1) == flat.pt(d2)):
-                ctx.violation("diverged", "the two orders give different documents: %s vs %s" % (str(d1)[:250], str(d2)[:250]), det, mech)
+                ra, rb = removed_tokens(hA[2]), removed_tokens(hB[2])
+                anc = bool(ra & enclosing_tokens(tk, hB[0], hB[1])) or bool(rb & enclosing_tokens(tk, hA[0], hA[1])) \
+                    or shares_node_boundary(tk, ra, hB[0], hB[1]) or shares_node_boundary(tk, rb, hA[0], hA[1])
+                anc = anc or reparents(sch, tk, dA, hA, hB) or reparents(sch, tk, dB, hB, hA)
+                strip = lambda dd: [(t[0], t[1]) if t[0] == "T" else t[:3] for t in flat.toks(flat.pt(dd)[4], leaf)]  # noqa: E731
+                ctx.violation("diverged", "the two orders give different documents: %s vs %s" % (str(d1)[:250], str(d2)[:250]), det,
+                              {**mech, "ancestor_token_removed": anc, "differ_only_in_text_marks": strip(d1) == strip(d2),
+                               "token_sequences_equal": flat.toks(flat.pt(d1)[4], leaf) == flat.toks(flat.pt(d2)[4], leaf)})
                 continue
             ctx.cover([sch.id, ka, kb, opA.name, opB.name, hA[1] < hB[0]], nontrivial=True)
             ctx.cover(["cell", ka, kb], nontrivial=False)
